@@ -493,3 +493,31 @@ func rewriteImp(s string) string {
 	}
 	return out
 }
+
+// clauseMentions: is some clause of the contract tagged with the property (ensures[Cxx], before[Cxx],
+// at_return[Cxx], loop clauses)? Such a function is verified for that property too; only the tagged
+// obligations count for it.
+func (fc *FuncContract) clauseMentions(prop string) bool {
+	has := func(cls []Clause) bool {
+		for _, c := range cls {
+			if hasProp(c.Props, prop) {
+				return true
+			}
+		}
+		return false
+	}
+	if has(fc.Requires) || has(fc.Ensures) || has(fc.Assumes) {
+		return true
+	}
+	for _, l := range fc.Lists {
+		if has(l) {
+			return true
+		}
+	}
+	for _, lc := range fc.Loops {
+		if has(lc.Invariants) || has(lc.Steps) || has(lc.Exits) {
+			return true
+		}
+	}
+	return false
+}
